@@ -3,6 +3,7 @@
 //! case:  op | inputs for the Lean model | implementation result | oracle verdict
 mod util;
 mod c01;
+mod c04;
 mod c12;
 mod curves;
 mod c14;
@@ -26,6 +27,7 @@ fn main() {
     let mut rng = Rng::new(seed ^ (prop.bytes().fold(0u64, |a, b| a.wrapping_mul(131).wrapping_add(b as u64))));
     match prop {
         "C01" => c01::run(&mut rng, n),
+        "C04" => c04::run(&mut rng, n),
         "C12" => {
             let slice = (seed % 1000) as usize;
             let thorough = args.iter().any(|a| a == "--thorough");
